@@ -40,7 +40,10 @@ PARTIAL = ('proved for all inputs (Properties/C05.v): under wf_chains and valid 
            '(duplicates, accumulation, cancellation, single chain with any coefficient); the meaning clause holds for every returned graph and every cover oracle; '
            'from_opgraph: layers, qD = node charges in id order, nid_map, block sparsity, opamp = word sum of den; chains -> MPO end to end. '
            'is_consistent never answers False on any returned graph (levels, terminals, sorted opics, cross references; any fuel, any cover); '
-           'NOT proved, validated on every case (evaluated in Coq): glength g = L, charges along paths. '
+           'glength g = Some L for every returned graph (any cover; C05_glength) and the complete headline C05_from_opchains_total (wf chains, proved cover model: '
+           'Ok g, linked, consistency check cannot fail, length L, den g = chain sum); bond quantum numbers edge by edge (C05_edge_charges: every edge carries '
+           'one operator oids[k] of one non-zero padded chain, k < L, and its end nodes carry that chain\'s charges qnums[k], qnums[k+1]). '
+           'NOT stated: that one witness chain serves all edges of a path (paths of a compressed graph mix chains sharing charges). '
            'The hypotheses wf_chains and covers_ok are themselves evaluated on every successful case with the recorded covers.')
 ASSUMPTIONS = ['the tensor accumulation loop of MPO.from_opgraph is modelled by its meaning as an index comprehension (validated exactly on every case)']
 
